@@ -1,17 +1,843 @@
-//! C07 — correspondence driver (stub: not built yet).
+//! C07 — determinant and inverse.  See lean/Driver/C07.lean for the protocol.
+//!
+//! A case (`@ <fp|rat> a:R,b:C <entries>`) fixes the *logical* matrix; `via=<source>/<call>`
+//! chooses how that matrix is presented to easy-ml (owned / borrowed / transposed / masked /
+//! ranged / reversed / renamed / selected / matrix-backed …) and which entry point is called
+//! (free function by value, by reference, method).  Every variant must give the one answer of
+//! the model.
 
+use crate::exact::{Fp, Rat, P};
 use crate::util::*;
+use easy_ml::interop::TensorRefMatrix;
+use easy_ml::linear_algebra;
+use easy_ml::matrices::Matrix;
+use easy_ml::numeric::{Numeric, NumericRef};
+use easy_ml::tensors::views::{IndexRange, TensorRef, TensorView};
+use easy_ml::tensors::Tensor;
+use std::fmt::Display;
 
-pub fn gen(_g: &mut Gen) {}
+// ---------------------------------------------------------------------------------------------
+// element types
+// ---------------------------------------------------------------------------------------------
 
-pub struct Runner;
+pub trait Elem: Numeric + Display + PartialEq + 'static
+where
+    for<'a> &'a Self: NumericRef<Self>,
+{
+    fn parse(s: &str) -> Self;
+    fn small(i: i64) -> Self;
+    /// values hidden behind masks/ranges: large, distinct, non-zero
+    fn junk(k: usize) -> Self {
+        Self::small(1_000_003 + 7919 * k as i64)
+    }
+}
+
+impl Elem for Fp {
+    fn parse(s: &str) -> Fp {
+        let v: i128 = s.parse().expect("fp literal");
+        if v >= 0 { Fp::new(v as u64) } else { Fp::from_i64(v as i64) }
+    }
+    fn small(i: i64) -> Fp {
+        Fp::from_i64(i)
+    }
+}
+
+impl Elem for Rat {
+    fn parse(s: &str) -> Rat {
+        match s.split_once('/') {
+            Some((n, d)) => Rat::new(n.parse().expect("num"), d.parse().expect("den")),
+            None => Rat::new(s.parse().expect("int"), 1),
+        }
+    }
+    fn small(i: i64) -> Rat {
+        Rat::int(i)
+    }
+}
+
+fn show_vals<T: Display>(v: &[T]) -> String {
+    v.iter().map(|x| x.to_string()).collect::<Vec<_>>().join(",")
+}
+
+// ---------------------------------------------------------------------------------------------
+// presenting the logical matrix through the different sources
+// ---------------------------------------------------------------------------------------------
+
+#[derive(Clone)]
+struct Logical<T> {
+    names: [&'static str; 2],
+    rows: usize,
+    cols: usize,
+    data: Vec<T>, // row-major
+}
+
+impl<T: Clone> Logical<T> {
+    fn at(&self, r: usize, c: usize) -> T {
+        self.data[r * self.cols + c].clone()
+    }
+    fn tensor(&self) -> Tensor<T, 2> {
+        Tensor::from([(self.names[0], self.rows), (self.names[1], self.cols)], self.data.clone())
+    }
+    fn matrix(&self) -> Matrix<T> {
+        Matrix::from_flat_row_major((self.rows, self.cols), self.data.clone())
+    }
+}
+
+/// An operation on a 2-D view, generic in the view's source type.
+trait ViewOp<T> {
+    type Out;
+    fn call<S: TensorRef<T, 2>>(self, view: TensorView<T, S, 2>) -> Self::Out;
+}
+
+/// Builds the view named by `src` that shows exactly `l` and applies `op` to it.
+fn with_source<T: Elem, O: ViewOp<T>>(src: &str, l: &Logical<T>, op: O) -> O::Out
+where
+    for<'a> &'a T: NumericRef<T>,
+{
+    let [a, b] = l.names;
+    let (r, c) = (l.rows, l.cols);
+    match src {
+        "tensor" => op.call(TensorView::from(l.tensor())),
+        "tensor_ref" => {
+            let t = l.tensor();
+            op.call(TensorView::from(&t))
+        }
+        "tensor_mut" => {
+            let mut t = l.tensor();
+            op.call(TensorView::from(&mut t))
+        }
+        "view_ref" => {
+            let v = TensorView::from(l.tensor());
+            let v2: TensorView<T, &Tensor<T, 2>, 2> = From::from(&v);
+            op.call(v2)
+        }
+        "transposed" => {
+            // base holds the transpose under the same name order
+            let mut data = Vec::with_capacity(r * c);
+            for j in 0..c {
+                for i in 0..r {
+                    data.push(l.at(i, j));
+                }
+            }
+            let base = Tensor::from([(a, c), (b, r)], data);
+            op.call(base.transpose_view([b, a]))
+        }
+        "reordered" => {
+            let mut data = Vec::with_capacity(r * c);
+            for j in 0..c {
+                for i in 0..r {
+                    data.push(l.at(i, j));
+                }
+            }
+            let base = Tensor::from([(b, c), (a, r)], data);
+            op.call(TensorView::from(base.index_by([a, b])))
+        }
+        "masked" | "masked_owned" => {
+            // one junk row and one junk column, hidden by a mask
+            let (kr, kc) = (r / 2, (c + 1) / 2);
+            let mut data = Vec::with_capacity((r + 1) * (c + 1));
+            let mut junk = 0;
+            for i in 0..=r {
+                for j in 0..=c {
+                    if i == kr || j == kc {
+                        data.push(T::junk(junk));
+                        junk += 1;
+                    } else {
+                        let si = if i < kr { i } else { i - 1 };
+                        let sj = if j < kc { j } else { j - 1 };
+                        data.push(l.at(si, sj));
+                    }
+                }
+            }
+            let base = Tensor::from([(a, r + 1), (b, c + 1)], data);
+            if src == "masked" {
+                op.call(base.mask([(a, kr..kr + 1), (b, kc..kc + 1)]).expect("mask"))
+            } else {
+                op.call(base.mask_owned([(a, kr..kr + 1), (b, kc..kc + 1)]).expect("mask"))
+            }
+        }
+        "ranged" => {
+            // embedded in a larger tensor with offsets (1, 2)
+            let (or, oc) = (1, 2);
+            let (br, bc) = (r + 2, c + 3);
+            let mut data = Vec::with_capacity(br * bc);
+            let mut junk = 0;
+            for i in 0..br {
+                for j in 0..bc {
+                    if i >= or && i < or + r && j >= oc && j < oc + c {
+                        data.push(l.at(i - or, j - oc));
+                    } else {
+                        data.push(T::junk(junk));
+                        junk += 1;
+                    }
+                }
+            }
+            let base = Tensor::from([(a, br), (b, bc)], data);
+            op.call(base.range([(a, IndexRange::new(or, r)), (b, IndexRange::new(oc, c))]).expect("range"))
+        }
+        "reversed" => {
+            let mut data = Vec::with_capacity(r * c);
+            for i in (0..r).rev() {
+                for j in (0..c).rev() {
+                    data.push(l.at(i, j));
+                }
+            }
+            let base = Tensor::from([(a, r), (b, c)], data);
+            op.call(base.reverse(&[a, b]))
+        }
+        "renamed" => {
+            let base = Tensor::from([("qq", r), ("zz", c)], l.data.clone());
+            op.call(base.rename_view([a, b]))
+        }
+        "selected" => {
+            // the second slice of a 3-D tensor
+            let mut data: Vec<T> = (0..r * c).map(T::junk).collect();
+            data.extend(l.data.iter().cloned());
+            let base = Tensor::from([("zz", 2), (a, r), (b, c)], data);
+            op.call(base.select([("zz", 1)]))
+        }
+        "matrix_wrapped" => {
+            let m = l.matrix();
+            op.call(TensorView::from(TensorRefMatrix::with_names(&m, [a, b]).expect("names")))
+        }
+        "masked_transposed" => {
+            // transpose of a tensor with one hidden row: mask ∘ transpose
+            let kr = r / 2;
+            let mut data = Vec::with_capacity((r + 1) * c);
+            let mut junk = 0;
+            for j in 0..c {
+                for i in 0..=r {
+                    if i == kr {
+                        data.push(T::junk(junk));
+                        junk += 1;
+                    } else {
+                        data.push(l.at(if i < kr { i } else { i - 1 }, j));
+                    }
+                }
+            }
+            let base = Tensor::from([(a, c), (b, r + 1)], data);
+            let transposed = base.transpose_view([b, a]); // shape [(a, r+1), (b, c)]
+            op.call(transposed.mask([(a, kr..kr + 1)]).expect("mask"))
+        }
+        other => panic!("unknown source {}", other),
+    }
+}
+
+const VIEW_SOURCES: [&str; 13] = [
+    "tensor", "tensor_ref", "tensor_mut", "view_ref", "transposed", "reordered", "masked", "masked_owned",
+    "ranged", "reversed", "renamed", "selected", "matrix_wrapped",
+];
+const VIEW_SOURCES_EXTRA: [&str; 1] = ["masked_transposed"];
+const VIEW_CALLS: [&str; 3] = ["fn", "fn_ref", "method"];
+/// calls that take a `Tensor` directly (no `TensorView` in between)
+const TENSOR_DIRECT: [&str; 4] = ["direct/fn_owned", "direct/fn_ref", "direct/fn_mut", "direct/method"];
+
+struct DetOp<'a>(&'a str);
+impl<'a, T: Elem> ViewOp<T> for DetOp<'a>
+where
+    for<'b> &'b T: NumericRef<T>,
+{
+    type Out = Option<T>;
+    fn call<S: TensorRef<T, 2>>(self, view: TensorView<T, S, 2>) -> Option<T> {
+        match self.0 {
+            "fn" => linear_algebra::determinant_tensor::<T, _, _>(view),
+            "fn_ref" => linear_algebra::determinant_tensor::<T, _, _>(&view),
+            "method" => view.determinant(),
+            other => panic!("unknown call {}", other),
+        }
+    }
+}
+
+struct InvOp<'a>(&'a str);
+impl<'a, T: Elem> ViewOp<T> for InvOp<'a>
+where
+    for<'b> &'b T: NumericRef<T>,
+{
+    type Out = Option<Tensor<T, 2>>;
+    fn call<S: TensorRef<T, 2>>(self, view: TensorView<T, S, 2>) -> Option<Tensor<T, 2>> {
+        match self.0 {
+            "fn" => linear_algebra::inverse_tensor::<T, _, _>(view),
+            "fn_ref" => linear_algebra::inverse_tensor::<T, _, _>(&view),
+            "method" => view.inverse(),
+            other => panic!("unknown call {}", other),
+        }
+    }
+}
+
+fn tensor_det<T: Elem>(via: &str, l: &Logical<T>) -> Option<T>
+where
+    for<'a> &'a T: NumericRef<T>,
+{
+    let (src, call) = via.split_once('/').expect("via=src/call");
+    if src == "direct" {
+        let mut t = l.tensor();
+        return match call {
+            "fn_owned" => linear_algebra::determinant_tensor::<T, _, _>(t),
+            "fn_ref" => linear_algebra::determinant_tensor::<T, _, _>(&t),
+            "fn_mut" => linear_algebra::determinant_tensor::<T, _, _>(&mut t),
+            "method" => t.determinant(),
+            other => panic!("unknown call {}", other),
+        };
+    }
+    with_source::<T, _>(src, l, DetOp(call))
+}
+
+fn tensor_inv<T: Elem>(via: &str, l: &Logical<T>) -> Option<Tensor<T, 2>>
+where
+    for<'a> &'a T: NumericRef<T>,
+{
+    let (src, call) = via.split_once('/').expect("via=src/call");
+    if src == "direct" {
+        let mut t = l.tensor();
+        return match call {
+            "fn_owned" => linear_algebra::inverse_tensor::<T, _, _>(t),
+            "fn_ref" => linear_algebra::inverse_tensor::<T, _, _>(&t),
+            "fn_mut" => linear_algebra::inverse_tensor::<T, _, _>(&mut t),
+            "method" => t.inverse(),
+            other => panic!("unknown call {}", other),
+        };
+    }
+    with_source::<T, _>(src, l, InvOp(call))
+}
+
+const MATRIX_SOURCES: [&str; 5] = ["flat", "rows", "transposed", "removed", "from_fn"];
+const MATRIX_CALLS: [&str; 2] = ["fn", "method"];
+
+fn build_matrix<T: Elem>(src: &str, l: &Logical<T>) -> Matrix<T>
+where
+    for<'a> &'a T: NumericRef<T>,
+{
+    let (r, c) = (l.rows, l.cols);
+    match src {
+        "flat" => l.matrix(),
+        "rows" => Matrix::from((0..r).map(|i| (0..c).map(|j| l.at(i, j)).collect()).collect()),
+        "transposed" => {
+            let mut data = Vec::with_capacity(r * c);
+            for j in 0..c {
+                for i in 0..r {
+                    data.push(l.at(i, j));
+                }
+            }
+            Matrix::from_flat_row_major((c, r), data).transpose()
+        }
+        "removed" => {
+            // a larger matrix from which one junk row and one junk column are removed
+            let (kr, kc) = ((r + 1) / 2, c / 2);
+            let mut junk = 0;
+            let mut m = Matrix::from_fn((r + 1, c + 1), |(i, j)| {
+                if i == kr || j == kc {
+                    junk += 1;
+                    T::junk(junk)
+                } else {
+                    l.at(if i < kr { i } else { i - 1 }, if j < kc { j } else { j - 1 })
+                }
+            });
+            m.remove_row(kr);
+            m.remove_column(kc);
+            m
+        }
+        "from_fn" => Matrix::from_fn((r, c), |(i, j)| l.at(i, j)),
+        other => panic!("unknown matrix source {}", other),
+    }
+}
+
+fn matrix_det<T: Elem>(via: &str, l: &Logical<T>) -> Option<T>
+where
+    for<'a> &'a T: NumericRef<T>,
+{
+    let (src, call) = via.split_once('/').expect("via=src/call");
+    let m = build_matrix::<T>(src, l);
+    match call {
+        "fn" => linear_algebra::determinant::<T>(&m),
+        "method" => m.determinant(),
+        other => panic!("unknown call {}", other),
+    }
+}
+
+fn matrix_inv<T: Elem>(via: &str, l: &Logical<T>) -> Option<Matrix<T>>
+where
+    for<'a> &'a T: NumericRef<T>,
+{
+    let (src, call) = via.split_once('/').expect("via=src/call");
+    let m = build_matrix::<T>(src, l);
+    match call {
+        "fn" => linear_algebra::inverse::<T>(&m),
+        "method" => m.inverse(),
+        other => panic!("unknown call {}", other),
+    }
+}
+
+fn is_identity<T: Elem>(n: usize, data: &[T]) -> bool
+where
+    for<'a> &'a T: NumericRef<T>,
+{
+    data.len() == n * n
+        && (0..n).all(|i| (0..n).all(|j| data[i * n + j] == if i == j { T::one() } else { T::zero() }))
+}
+
+fn check_str<T: Elem>(n: usize, p: &[T], q: &[T]) -> String
+where
+    for<'a> &'a T: NumericRef<T>,
+{
+    if is_identity::<T>(n, p) && is_identity::<T>(n, q) {
+        "some(id,id)".to_string()
+    } else {
+        format!("some({}|{})", show_vals(p), show_vals(q))
+    }
+}
+
+fn answer<T: Elem>(l: &Logical<T>, op: &str, via: &str) -> String
+where
+    for<'a> &'a T: NumericRef<T>,
+{
+    let res = catch(|| match op {
+        "mdet" => match matrix_det::<T>(via, l) {
+            Some(d) => format!("some({})", d),
+            None => "none".to_string(),
+        },
+        "tdet" => match tensor_det::<T>(via, l) {
+            Some(d) => format!("some({})", d),
+            None => "none".to_string(),
+        },
+        "minv" => match matrix_inv::<T>(via, l) {
+            Some(m) => {
+                let data: Vec<T> = m.row_major_iter().collect();
+                format!("some({}x{};{})", m.rows(), m.columns(), show_vals(&data))
+            }
+            None => "none".to_string(),
+        },
+        "tinv" => match tensor_inv::<T>(via, l) {
+            Some(t) => {
+                let data: Vec<T> = t.iter().collect();
+                format!("some({};{})", show_shape(&t.shape()), show_vals(&data))
+            }
+            None => "none".to_string(),
+        },
+        "mcheck" => match matrix_inv::<T>(via, l) {
+            Some(inv) => {
+                let a = l.matrix();
+                let p: Vec<T> = (&a * &inv).row_major_iter().collect();
+                let q: Vec<T> = (&inv * &a).row_major_iter().collect();
+                check_str::<T>(l.rows, &p, &q)
+            }
+            None => "none".to_string(),
+        },
+        "tcheck" => match tensor_inv::<T>(via, l) {
+            Some(inv) => {
+                let a = l.tensor();
+                let p: Vec<T> = (&a * &inv).iter().collect();
+                let q: Vec<T> = (&inv * &a).iter().collect();
+                check_str::<T>(l.rows, &p, &q)
+            }
+            None => "none".to_string(),
+        },
+        other => format!("bad-op {}", other),
+    });
+    match res {
+        Ok(s) => s,
+        Err(k) => panic_str(k),
+    }
+}
+
+// ---------------------------------------------------------------------------------------------
+// runner
+// ---------------------------------------------------------------------------------------------
+
+enum Case {
+    None,
+    Fp(Logical<Fp>),
+    Rat(Logical<Rat>),
+}
+
+pub struct Runner {
+    case: Case,
+}
 
 impl Runner {
     pub fn new() -> Runner {
-        Runner
+        Runner { case: Case::None }
     }
 
-    pub fn step(&mut self, _toks: &[&str]) -> String {
-        "unimplemented".into()
+    pub fn step(&mut self, toks: &[&str]) -> String {
+        if toks.is_empty() {
+            return "bad-op".into();
+        }
+        if toks[0] == "@" {
+            let shape = parse_shape(toks[2]);
+            let names = [shape[0].0, shape[1].0];
+            let (rows, cols) = (shape[0].1, shape[1].1);
+            let ents = split_comma(toks[3]);
+            assert_eq!(ents.len(), rows * cols);
+            self.case = match toks[1] {
+                "fp" => Case::Fp(Logical { names, rows, cols, data: ents.iter().map(|s| Fp::parse(s)).collect() }),
+                "rat" => Case::Rat(Logical { names, rows, cols, data: ents.iter().map(|s| Rat::parse(s)).collect() }),
+                _ => return "bad-op".into(),
+            };
+            return "ok".into();
+        }
+        let via = opt_arg("via", toks).unwrap_or("flat/fn");
+        match &self.case {
+            Case::None => "no-case".into(),
+            Case::Fp(l) => answer::<Fp>(l, toks[0], via),
+            Case::Rat(l) => answer::<Rat>(l, toks[0], via),
+        }
+    }
+}
+
+// ---------------------------------------------------------------------------------------------
+// generation
+// ---------------------------------------------------------------------------------------------
+
+const NAME_POOL: [&str; 8] = ["a", "b", "row", "column", "x", "y", "rows", "cols"];
+
+/// rank of an integer matrix over Q by fraction-free elimination (generator statistics only)
+fn rank_i128(rows: usize, cols: usize, data: &[i128]) -> usize {
+    let mut m: Vec<Vec<i128>> = (0..rows).map(|i| data[i * cols..(i + 1) * cols].to_vec()).collect();
+    let mut rank = 0;
+    for c in 0..cols {
+        if rank == rows {
+            break;
+        }
+        let Some(p) = (rank..rows).find(|&i| m[i][c] != 0) else { continue };
+        m.swap(rank, p);
+        for i in rank + 1..rows {
+            if m[i][c] != 0 {
+                let (a, b) = (m[rank][c], m[i][c]);
+                for j in 0..cols {
+                    m[i][j] = m[i][j] * a - m[rank][j] * b;
+                }
+                // keep entries small
+                let g = m[i].iter().fold(0i128, |g, &x| gcd(g, x));
+                if g > 1 {
+                    for j in 0..cols {
+                        m[i][j] /= g;
+                    }
+                }
+            }
+        }
+        rank += 1;
+    }
+    rank
+}
+
+fn gcd(a: i128, b: i128) -> i128 {
+    let (mut a, mut b) = (a.abs(), b.abs());
+    while b != 0 {
+        let t = a % b;
+        a = b;
+        b = t;
+    }
+    a
+}
+
+fn rank_fp(rows: usize, cols: usize, data: &[Fp]) -> usize {
+    let mut m: Vec<Vec<Fp>> = (0..rows).map(|i| data[i * cols..(i + 1) * cols].to_vec()).collect();
+    let mut rank = 0;
+    for c in 0..cols {
+        if rank == rows {
+            break;
+        }
+        let Some(p) = (rank..rows).find(|&i| m[i][c].0 != 0) else { continue };
+        m.swap(rank, p);
+        let inv = m[rank][c].inv();
+        for i in rank + 1..rows {
+            if m[i][c].0 != 0 {
+                let f = &m[i][c] * &inv;
+                for j in 0..cols {
+                    m[i][j] = &m[i][j] - &(&f * &m[rank][j]);
+                }
+            }
+        }
+        rank += 1;
+    }
+    rank
+}
+
+struct Emit<'g> {
+    g: &'g mut Gen,
+    /// how many `via` variants per operation (all variants are visited round-robin over cases)
+    tick: usize,
+}
+
+impl<'g> Emit<'g> {
+    fn names(&mut self) -> (&'static str, &'static str) {
+        let i = self.g.rng.below(NAME_POOL.len());
+        let mut j = self.g.rng.below(NAME_POOL.len() - 1);
+        if j >= i {
+            j += 1;
+        }
+        (NAME_POOL[i], NAME_POOL[j])
+    }
+
+    fn tensor_via(&mut self) -> String {
+        self.tick += 1;
+        let n_view = (VIEW_SOURCES.len() + VIEW_SOURCES_EXTRA.len()) * VIEW_CALLS.len();
+        let k = self.tick % (n_view + TENSOR_DIRECT.len());
+        if k < n_view {
+            let s = k / VIEW_CALLS.len();
+            let src = if s < VIEW_SOURCES.len() { VIEW_SOURCES[s] } else { VIEW_SOURCES_EXTRA[s - VIEW_SOURCES.len()] };
+            format!("{}/{}", src, VIEW_CALLS[k % VIEW_CALLS.len()])
+        } else {
+            TENSOR_DIRECT[k - n_view].to_string()
+        }
+    }
+
+    fn matrix_via(&mut self) -> String {
+        self.tick += 1;
+        let k = self.tick % (MATRIX_SOURCES.len() * MATRIX_CALLS.len());
+        format!("{}/{}", MATRIX_SOURCES[k / MATRIX_CALLS.len()], MATRIX_CALLS[k % MATRIX_CALLS.len()])
+    }
+
+    /// one case: the matrix and the six questions
+    fn case(&mut self, ty: &str, rows: usize, cols: usize, entries: &[String], kind: &str, rank: Option<usize>, all_ops: bool) {
+        let (a, b) = self.names();
+        self.g.op(format!("@ {} {}:{},{}:{} {}", ty, a, rows, b, cols, entries.join(",")));
+        self.g.count(&format!("type.{}", ty));
+        self.g.count(&format!("shape.{}x{}", rows, cols));
+        self.g.count(&format!("kind.{}", kind));
+        if rows == cols {
+            match rank {
+                Some(r) if r == rows => self.g.count(&format!("square.invertible.n={}", rows)),
+                Some(r) => {
+                    self.g.count(&format!("square.singular.n={}", rows));
+                    self.g.count(&format!("square.singular.rank_deficit={}", rows - r));
+                }
+                None => {}
+            }
+        } else {
+            self.g.count("nonsquare");
+        }
+        let ops: &[&str] = if all_ops {
+            &["mdet", "tdet", "minv", "tinv", "mcheck", "tcheck"]
+        } else {
+            // rotate so that every operation is asked of a third of the cases
+            match self.tick % 3 {
+                0 => &["mdet", "tinv", "mcheck"],
+                1 => &["tdet", "minv", "tcheck"],
+                _ => &["mdet", "tdet", "minv", "tinv"],
+            }
+        };
+        for op in ops {
+            let via = if op.starts_with('m') { self.matrix_via() } else { self.tensor_via() };
+            self.g.count(&format!("via.{}.{}", &op[..1], via));
+            self.g.op(format!("{} via={}", op, via));
+        }
+    }
+
+    fn int_case(&mut self, ty: &str, rows: usize, cols: usize, ints: &[i128], kind: &str, all_ops: bool) {
+        let entries: Vec<String> = ints.iter().map(|x| x.to_string()).collect();
+        let rank = rank_i128(rows, cols, ints);
+        self.case(ty, rows, cols, &entries, kind, Some(rank), all_ops);
+    }
+
+    fn fp_case(&mut self, rows: usize, cols: usize, vals: &[Fp], kind: &str, all_ops: bool) {
+        let entries: Vec<String> = vals.iter().map(|x| x.0.to_string()).collect();
+        let rank = rank_fp(rows, cols, vals);
+        self.case("fp", rows, cols, &entries, kind, Some(rank), all_ops);
+    }
+}
+
+fn small_int(g: &mut Gen, bound: i128) -> i128 {
+    g.rng.below((2 * bound + 1) as usize) as i128 - bound
+}
+
+fn random_fp(g: &mut Gen) -> Fp {
+    Fp::new(g.rng.next() % P)
+}
+
+/// B (n×k) · C (k×n): rank ≤ k by construction
+fn low_rank_int(g: &mut Gen, n: usize, k: usize, bound: i128) -> Vec<i128> {
+    let b: Vec<i128> = (0..n * k).map(|_| small_int(g, bound)).collect();
+    let c: Vec<i128> = (0..k * n).map(|_| small_int(g, bound)).collect();
+    let mut out = vec![0i128; n * n];
+    for i in 0..n {
+        for j in 0..n {
+            out[i * n + j] = (0..k).map(|t| b[i * k + t] * c[t * n + j]).sum();
+        }
+    }
+    out
+}
+
+fn low_rank_fp(g: &mut Gen, n: usize, k: usize) -> Vec<Fp> {
+    let b: Vec<Fp> = (0..n * k).map(|_| random_fp(g)).collect();
+    let c: Vec<Fp> = (0..k * n).map(|_| random_fp(g)).collect();
+    let mut out = vec![];
+    for i in 0..n {
+        for j in 0..n {
+            let mut s = Fp(0);
+            for t in 0..k {
+                s = s + &b[i * k + t] * &c[t * n + j];
+            }
+            out.push(s);
+        }
+    }
+    out
+}
+
+pub fn gen(g: &mut Gen) {
+    let thorough = g.thorough;
+    let max_n = if thorough { 6 } else { 5 };
+    let mut e = Emit { g, tick: 0 };
+
+    // --- every permutation matrix (each exercises one Leibniz term and its parity flag) ---
+    for n in 1..=max_n {
+        for (idx, perm) in permutations(n).into_iter().enumerate() {
+            let mut ints = vec![0i128; n * n];
+            for (i, &p) in perm.iter().enumerate() {
+                ints[i * n + p] = 1;
+            }
+            let ty = if idx % 2 == 0 { "rat" } else { "fp" };
+            e.int_case(ty, n, n, &ints, "permutation_matrix", n <= 3);
+            // a scaled non-symmetric variant: distinct weights on the ones
+            let mut w = ints.clone();
+            for (i, &p) in perm.iter().enumerate() {
+                w[i * n + p] = (i as i128) + 2;
+            }
+            let ty = if idx % 2 == 0 { "fp" } else { "rat" };
+            e.int_case(ty, n, n, &w, "weighted_permutation_matrix", false);
+        }
+    }
+
+    // --- quick tier: a small sample of size 6 (the full sweep of size 6 is in the thorough tier) ---
+    if !thorough {
+        for round in 0..24 {
+            let n = 6;
+            let mut perm: Vec<usize> = (0..n).collect();
+            if round > 0 {
+                e.g.rng.shuffle(&mut perm);
+            }
+            let mut ints = vec![0i128; n * n];
+            for (i, &p) in perm.iter().enumerate() {
+                ints[i * n + p] = if round % 2 == 0 { 1 } else { (i as i128) + 2 };
+            }
+            if round % 4 == 3 {
+                // fill the rest sparsely so that several Leibniz terms contribute
+                for _ in 0..6 {
+                    let at = e.g.rng.below(n * n);
+                    ints[at] += small_int(e.g, 3);
+                }
+            }
+            e.int_case(if round % 2 == 0 { "rat" } else { "fp" }, n, n, &ints, "size6_sample", false);
+        }
+    }
+
+    // --- exhaustive 2x2 over {-1,0,1,2}, both element types, all six questions ---
+    let vals2 = [-1i128, 0, 1, 2];
+    for code in 0..256usize {
+        let ints: Vec<i128> = (0..4).map(|k| vals2[(code >> (2 * k)) & 3]).collect();
+        e.int_case("rat", 2, 2, &ints, "exhaustive2x2", true);
+        e.int_case("fp", 2, 2, &ints, "exhaustive2x2", true);
+    }
+
+    // --- exhaustive 3x3 over {-1,0,1}, both element types ---
+    let mut code = vec![0usize; 9];
+    loop {
+        let ints: Vec<i128> = code.iter().map(|&d| d as i128 - 1).collect();
+        e.int_case("rat", 3, 3, &ints, "exhaustive3x3", false);
+        e.int_case("fp", 3, 3, &ints, "exhaustive3x3", false);
+        let mut k = 0;
+        while k < 9 {
+            code[k] += 1;
+            if code[k] < 3 {
+                break;
+            }
+            code[k] = 0;
+            k += 1;
+        }
+        if k == 9 {
+            break;
+        }
+    }
+
+    // --- random square matrices, sizes 1..max_n ---
+    let per_size = if thorough { 1200 } else { 240 };
+    for n in 1..=max_n {
+        for round in 0..per_size {
+            let kind = round % 8;
+            match kind {
+                0 => {
+                    let ints: Vec<i128> = (0..n * n).map(|_| small_int(e.g, 9)).collect();
+                    e.int_case("rat", n, n, &ints, "random_small", n <= 2);
+                }
+                1 => {
+                    let vals: Vec<Fp> = (0..n * n).map(|_| random_fp(e.g)).collect();
+                    e.fp_case(n, n, &vals, "random_field", n <= 2);
+                }
+                2 => {
+                    // rank-deficient by construction (rank ≤ k < n), rationals
+                    let k = if n == 1 { 0 } else { e.g.rng.range(if n > 2 { n - 2 } else { 1 }, n - 1) };
+                    let ints = if n == 1 { vec![0] } else { low_rank_int(e.g, n, k, 3) };
+                    e.int_case("rat", n, n, &ints, "low_rank", false);
+                }
+                3 => {
+                    // rank-deficient by construction over the prime field (entries are full-size)
+                    let k = if n == 1 { 0 } else { e.g.rng.range(if n > 2 { n - 2 } else { 1 }, n - 1) };
+                    let vals = if n == 1 { vec![Fp(0)] } else { low_rank_fp(e.g, n, k) };
+                    e.fp_case(n, n, &vals, "low_rank", false);
+                }
+                4 => {
+                    // near-singular: a rank n-1 matrix with one entry moved by one
+                    let mut ints = if n == 1 { vec![0] } else { low_rank_int(e.g, n, n - 1, 3) };
+                    let at = e.g.rng.below(n * n);
+                    ints[at] += if e.g.rng.chance(1, 2) { 1 } else { -1 };
+                    e.int_case("rat", n, n, &ints, "near_singular", false);
+                }
+                5 => {
+                    let mut vals = if n == 1 { vec![Fp(0)] } else { low_rank_fp(e.g, n, n - 1) };
+                    let at = e.g.rng.below(n * n);
+                    vals[at] = &vals[at] + &Fp(1);
+                    e.fp_case(n, n, &vals, "near_singular", false);
+                }
+                6 => {
+                    // duplicated / proportional rows or a zero column in an otherwise random matrix
+                    let mut ints: Vec<i128> = (0..n * n).map(|_| small_int(e.g, 5)).collect();
+                    if n >= 2 {
+                        let (r1, mut r2) = (e.g.rng.below(n), e.g.rng.below(n - 1));
+                        if r2 >= r1 {
+                            r2 += 1;
+                        }
+                        match e.g.rng.below(3) {
+                            0 => (0..n).for_each(|j| ints[r2 * n + j] = ints[r1 * n + j]),
+                            1 => (0..n).for_each(|j| ints[r2 * n + j] = -2 * ints[r1 * n + j]),
+                            _ => (0..n).for_each(|i| ints[i * n + r1] = 0),
+                        }
+                    }
+                    let ty = if e.g.rng.chance(1, 2) { "rat" } else { "fp" };
+                    e.int_case(ty, n, n, &ints, "dependent_rows", false);
+                }
+                _ => {
+                    // triangular with a random diagonal (zero on the diagonal now and then)
+                    let upper = e.g.rng.chance(1, 2);
+                    let mut ints = vec![0i128; n * n];
+                    for i in 0..n {
+                        for j in 0..n {
+                            if i == j || (upper && j > i) || (!upper && j < i) {
+                                ints[i * n + j] = small_int(e.g, 4);
+                            }
+                        }
+                    }
+                    let ty = if e.g.rng.chance(1, 2) { "rat" } else { "fp" };
+                    e.int_case(ty, n, n, &ints, "triangular", false);
+                }
+            }
+        }
+    }
+
+    // --- non-square shapes: everything is absent ---
+    let shapes: Vec<(usize, usize)> = {
+        let mut v = vec![];
+        for r in 1..=(max_n + 1) {
+            for c in 1..=(max_n + 1) {
+                if r != c {
+                    v.push((r, c));
+                }
+            }
+        }
+        v
+    };
+    for (r, c) in shapes {
+        let ints: Vec<i128> = (0..r * c).map(|_| small_int(e.g, 9)).collect();
+        e.int_case("rat", r, c, &ints, "nonsquare", true);
+        let vals: Vec<Fp> = (0..r * c).map(|_| random_fp(e.g)).collect();
+        e.fp_case(r, c, &vals, "nonsquare", true);
     }
 }
